@@ -833,15 +833,13 @@ class C18(PropCheck):
         want = dict(type='NoneType' if case['constants'] is None else ckind, contents=case['constants'])
         for when in ('consts_before', 'consts_after'):
             st = out[when]
-            if st['type'] != want['type'] or st['contents'] != want['contents']:
-                bad.append(('constants_unchanged', '%sthe caller\'s constants object is %s %s %s, it was created as %s %s'
-                            % (tag, st['type'], st['contents'], 'before the call' if when == 'consts_before' else 'after the call',
-                               want['type'], want['contents'])))
-                break
-            if 'held' in st and (st['held'] != want['contents'] or st['held_type'] != want['type']):
-                bad.append(('constants_unchanged', '%sthe constants held by the vectorised callable are %s %s %s, created with %s %s'
-                            % (tag, st['held_type'], st['held'], 'before the call' if when == 'consts_before' else 'after the call',
-                               want['type'], want['contents'])))
+            if st['type'] != want['type'] or st['contents'] != want['contents'] or \
+                    ('held' in st and (st['held'] != want['contents'] or st['held_type'] != want['type'])):
+                # generic text (one replay per kind of history); the contents before/after every call are in impl_output.hist[k]
+                bad.append(('constants_unchanged', 'the constants object the caller passed to elfi.tools.vectorize (held by the vectorised '
+                            'callable) does not have its original contents any more %s' %
+                            ('after a call of a multi-call history: auto-detected constants of one call leak into the next'
+                             if tag else 'after the call')))
                 break
         if out['calls'] is None:
             if out['n_logged']:
